@@ -3,6 +3,6 @@
 P=$1; ENVD=$2; TIER=${3:-quick}
 OUT=/tmp/vrt-mut/$P-$(basename $ENVD); mkdir -p $OUT
 cd "$(dirname "$0")/.."
-VRT_CPPPO_ENV=$ENVD VRT_EVID_DIR=$OUT python3 run_check.py $P --tier $TIER --jobs ${JOBS:-6} > $OUT/log 2>&1
+VRT_CPPPO_ENV=$ENVD VRT_EVID_DIR=$OUT python3 run_check.py $P --tier $TIER --jobs ${JOBS:-6} ${ONLY:+--only $ONLY} > $OUT/log 2>&1
 echo "rc=$?" >> $OUT/log
 grep -E "VIOLATION|INCONCLUSIVE|HARNESS-ERROR|^C[0-9]+ tier|rc=" $OUT/log | cut -c1-260
